@@ -234,6 +234,37 @@ def check_program(case, acc=None):
     return fails
 
 
+def enumerated_programs():
+    """Every ordered pair of binding blocks around an action, with a
+    handler that itself runs an action (all faults are injected into each
+    by check_program)."""
+    from checks.c02 import BLOCKS
+
+    def v(n):
+        return dict(k='var', ref=dict(r='name', n=n), opts=[])
+    actions = {
+        'grow': [v('mua')], 'shrink': [v('mud')],
+        'call': [dict(k='call', ref=dict(r='name', n='fa')), v('hv')],
+        'raise': [v('fr')],
+        'return': [dict(k='return', ref=dict(r='name', n='vn'))],
+        'sub': [v('ta'), v('tx')],
+    }
+    kinds = sorted(BLOCKS)
+    for i, outer in enumerate(kinds):
+        for j, inner in enumerate(kinds):
+            for k, (an, act) in enumerate(sorted(actions.items())):
+                if (i + j + k) % 2:
+                    continue            # half of the product, evenly spread
+                handler_act = actions[sorted(actions)[(i + j + k) % 3]]
+                prog = [dict(k='try', body=[BLOCKS[outer]([
+                    v('va'), BLOCKS[inner](act + [v('vb')]), v('fa')])],
+                    handlers=[dict(names=[], body=handler_act + [v('va')])],
+                    **{'else': None, 'finally': None}), v('vn')]
+                yield dict(ast=prog, syntax=('dtml', 'ssi', 'epfs')[
+                    (i + j) % 3], level=(i + k) % 4, expand_all=False,
+                    family='%s/%s/%s' % (outer, inner, an))
+
+
 def strategy():
     from hypothesis import strategies as st
     return st.fixed_dictionaries(dict(
@@ -244,11 +275,19 @@ def strategy():
 
 def plan(tier, seed):
     n = 40 if tier == "quick" else 800
-    return [dict(seed=seed * 1000 + i, n=n) for i in range(16)]
+    return [dict(seed=seed * 1000 + i, n=n) for i in range(16)] + \
+        [dict(enum=True, part=i, parts=8) for i in range(8)]
 
 
 def run_shard(shard):
     acc = Acc(ID, sample_every=997)
+    if shard.get('enum'):
+        for k, case in enumerate(enumerated_programs()):
+            if k % shard['parts'] != shard['part']:
+                continue
+            for b, c, msg in check_program(case, acc):
+                acc.fail(b, c, msg)
+        return acc.result()
     strat = strategy()
 
     def one(case):
